@@ -28,7 +28,8 @@ func init() { extraCmds["rapidgen"] = cmdRapidgen }
 type node struct {
 	Depth      int `json:"depth"`
 	EnumBad    int `json:"enumBad"`
-	EmptyLists int `json:"emptyLists"`
+	EmptyLists int `json:"emptyLists"`             // empty lists of messages
+	EmptyScalarLists int `json:"emptyScalarLists"` // empty lists of scalars / enums
 	NilMsgs    int `json:"nilMsgs"`
 	BadUtf8    int `json:"badUtf8"`
 	Unmapped   int `json:"unmapped"`
@@ -121,7 +122,11 @@ func facts(m protoreflect.Message, depth int, mapped bool, out *[]node) {
 		case fd.IsList():
 			l := m.Get(fd).List()
 			if l.Len() == 0 {
-				n.EmptyLists++
+				if fd.Message() != nil {
+					n.EmptyLists++
+				} else {
+					n.EmptyScalarLists++
+				}
 			}
 			for j := 0; j < l.Len(); j++ {
 				if fd.Message() != nil {
